@@ -461,6 +461,8 @@ impl StatementBatch {
             self is Timeout ==> final(h).cur == old(h).cur && final(h).now == old(h).now && final(h).hooks == old(h).hooks
                 && final(h).tasks[old(h).cur] == (TaskAbs { flags: final(h).tasks[old(h).cur].flags, ..old(h).tasks[old(h).cur] })
                 && (forall|on: Seq<char>| #[trigger] timeout_flag(old(h).tasks[old(h).cur], on) ==> timeout_flag(final(h).tasks[old(h).cur], on)),
+            //# W1-a-rule-raises-no-task-event-and-no-process-event-the-timed-task-is-not-reported-again [C08,C19]
+            self is Timeout ==> final(h).task_events == old(h).task_events && final(h).proc_events == old(h).proc_events,
             //# W1-a-parsable-rule-does-not-fail
             self is Timeout && parse_limit(self->Timeout_0.on@) is Ok ==> ret is Ok,
 //@@ loop 1
@@ -472,7 +474,7 @@ impl StatementBatch {
             //# timeout-steps-scheduled
             h.cur == old(h).cur && h.links_rev == old(h).links_rev && h.queue.len() == old(h).queue.len() + __i2
                 && h.tasks[h.cur] == (TaskAbs { flags: h.tasks[h.cur].flags, ..old(h).tasks[old(h).cur] }) && timeout_flag(h.tasks[h.cur], t.on@)
-                && h.now == old(h).now && h.hooks == old(h).hooks
+                && h.now == old(h).now && h.hooks == old(h).hooks && h.task_events == old(h).task_events && h.proc_events == old(h).proc_events
                 && (forall|on: Seq<char>| #[trigger] timeout_flag(old(h).tasks[old(h).cur], on) ==> timeout_flag(h.tasks[h.cur], on)),
 //@@ end
 }
